@@ -6,6 +6,11 @@ A *history* is JSON:
    "batches": [{"t": ["time", ns] | ["int", v], "sims": [..], "keys": [[v, …], …], "get": [sims …] | None}, …]}
 Key values: int → Python int (int64 range); float → Python float (finite, never -0.0); time → integer
 nanoseconds since the epoch (a multiple of 10^9, so every datetime unit holds it exactly).
+Optional (LESSONS.md 2, 3, 5): hist["dtypes"] numpy dtype per int / float column (int8 … uint32, float32), hist["names"]
+column names; batch["frame"] = {"order": permutation of the frame's columns, "extra": add a non-key column,
+"index_name": name of the frame's index, "range": RangeIndex}; batch["bad"] = {"col": j, "dtype": "bool"|"str"|"category"}
+replaces one key column by an unhashable one; clock kinds "time" | "tz" | "int" | "npint" | "float";
+batch["get_kind"] = container of the `__getitem__` request: "index" | "int32" | "range" | "list" | "array" | "series".
 """
 from __future__ import annotations
 
@@ -24,7 +29,14 @@ def repeat_alarm(seconds: float, every: float = 2.0):
     exception raised by that one signal can be swallowed (an `except Exception` inside pandas, a finalizer) and the
     case would then hang for good (seen once under mutants/C03/break-modulus-off-by-one). Re-arm the same timer with
     an interval, so the alarm keeps coming until the runner disarms it (`signal.alarm(0)` clears the interval too)."""
+    import os
     import signal
+    try:
+        # the deadline is wall time: stretch it by the machine's load (selftest runs several checks side by side; at a
+        # load average of 160 on 16 cores honest cases took longer than the 10 s budget and were reported as `timeout`)
+        seconds = float(seconds) * min(6.0, max(1.0, os.getloadavg()[0] / (os.cpu_count() or 1)))
+    except OSError:
+        pass
     try:
         signal.setitimer(signal.ITIMER_REAL, float(seconds), float(every))
     except (ValueError, OSError):      # not in the main thread: leave the runner's alarm alone
@@ -34,6 +46,27 @@ def repeat_alarm(seconds: float, every: float = 2.0):
 def coprime_sizes(ncols: int, lo: int, hi: int) -> list[int]:
     """block sizes for which the salt shift ncols*111111 generates every residue (DESIGN.md F11)"""
     return [s for s in range(lo, hi + 1) if math.gcd(s, max(1, ncols) * SPREAD) == 1]
+
+
+PRIMES = [2, 3, 5, 7, 11, 13, 17, 19, 23, 27]
+
+
+def _w64(x: int) -> int:
+    return (x + 2**63) % 2**64 - 2**63
+
+
+def ref_hash_int(key, salt: int, size: int) -> int:
+    """Pure-Python `_hash` for all-integer keys and an integer salt. Used ONLY by generators to aim at collision
+    chains (never by an oracle): if the implementation's hash changes, the aim is lost, nothing else."""
+    s10 = _w64(salt * SPREAD) % 10**10
+    tot = 0
+    for v in key:
+        c = _w64(int(v) * SPREAD) % 10**10
+        out = 1
+        for i, p in enumerate(PRIMES):
+            out = _w64(out * p ** ((c // 10**i) % 10))
+        tot = _w64(tot + _w64(out + s10))
+    return tot % size
 
 
 def float_rank(x: float) -> int:
@@ -58,24 +91,78 @@ def col_names(types):
     return [f"k{i}" for i in range(len(types))]
 
 
-def mk_frame(types, tunit, sims, keys):
+def names_of(hist):
+    return list(hist.get("names") or col_names(hist["cols"]))
+
+
+def mk_frame(types, tunit, sims, keys, names=None, dtypes=None, frame=None, bad=None):
+    """the key frame of one batch, in the container / dtype / column-order variant the case asks for"""
     import numpy as np
     import pandas as pd
+    names = list(names or col_names(types))
+    frame = frame or {}
     data = {}
-    for j, (name, ty) in enumerate(zip(col_names(types), types)):
+    for j, (name, ty) in enumerate(zip(names, types)):
         vals = [k[j] for k in keys]
-        if ty == "time":
+        if bad and bad["col"] == j:
+            if bad["dtype"] == "bool":
+                data[name] = np.array([bool(i % 2) for i in range(len(vals))], dtype=bool)
+            elif bad["dtype"] == "category":
+                data[name] = pd.Categorical([int(i) for i in range(len(vals))])
+            else:
+                data[name] = np.array([f"s{i}" for i in range(len(vals))], dtype=object)
+        elif ty == "time":
             data[name] = pd.to_datetime(np.array(vals, dtype="int64"), unit="ns").as_unit(tunit)
         else:
-            data[name] = np.array(vals, dtype=NP_DTYPE[ty])
-    return pd.DataFrame(data, index=pd.Index(np.array(sims, dtype="int64")))
+            data[name] = np.array(vals, dtype=(dtypes[j] if dtypes and dtypes[j] else NP_DTYPE[ty]))
+    if frame.get("extra"):
+        data["not_a_key"] = [f"x{i}" for i in range(len(keys))]
+        data["also_not_a_key"] = np.arange(len(keys), dtype=float)
+    order = list(data)
+    if frame.get("order"):
+        order = [names[i] for i in frame["order"]] + [c for c in order if c not in names]
+        if frame.get("extra"):
+            order = order[-1:] + order[:-1]          # an extra column first
+    sims = [int(x) for x in sims]
+    if frame.get("range") and sims and sims == list(range(sims[0], sims[0] + len(sims))):
+        index = pd.RangeIndex(sims[0], sims[0] + len(sims))
+    else:
+        index = pd.Index(np.array(sims, dtype="int64"))
+    if frame.get("index_name"):
+        index = index.rename(frame["index_name"])
+    return pd.DataFrame(data, index=index)[order]
 
 
 def mk_salt(t, tunit):
+    import numpy as np
     import pandas as pd
     if t[0] == "time":
         return pd.Timestamp(int(t[1]), unit="ns").as_unit(tunit)
+    if t[0] == "tz":
+        return pd.Timestamp(int(t[1]), unit="ns", tz="UTC").as_unit(tunit)
+    if t[0] == "float":
+        return float(t[1])
+    if t[0] == "npint":
+        return np.int64(t[1])
     return int(t[1])
+
+
+def mk_request(sims, kind):
+    """a `__getitem__` request in the container the case asks for"""
+    import numpy as np
+    import pandas as pd
+    sims = [int(x) for x in sims]
+    if kind == "range" and sims and sims == list(range(sims[0], sims[0] + len(sims))):
+        return pd.RangeIndex(sims[0], sims[0] + len(sims))
+    if kind == "int32":
+        return pd.Index(np.array(sims, dtype="int32"))
+    if kind == "list" and sims:
+        return sims
+    if kind == "array" and sims:
+        return np.array(sims, dtype="int64")
+    if kind == "series" and sims:
+        return pd.Series(sims, index=[f"r{i}" for i in range(len(sims))])
+    return pd.Index(np.array(sims, dtype="int64"))
 
 
 def key_index(df, types):
@@ -124,14 +211,27 @@ def outcome_of(e: BaseException) -> str:
     return {"RandomnessError": "err:randomness", "KeyError": "err:key"}.get(n, "err:" + n)
 
 
-def observe_update(im, big, df, t, names, hash_probe=6, update=None):
+class LoopBudgetExceeded(Exception):
+    """raised by the harness from inside `IndexMap._hash` (instance attribute) when the collision loop cannot end"""
+
+
+def _as_pos(v):
+    try:
+        return int(v) if float(v) == int(v) else repr(v)
+    except (ValueError, OverflowError, TypeError):
+        return repr(v)
+
+
+def observe_update(im, big, df, t, names, hash_probe=6, update=None, probe=True):
     """One `IndexMap.update(df, t)` on the real object `im`, with everything the checks look at:
     ten-digit conversions (the model's parameter), first hash of every key, hash probes, outcome class, the map
-    before and after. `update` = the bound method to call (the unwrapped one when `im.update` is instrumented)."""
+    before and after, the number of collision-loop passes, and – the public observation point – the position of every
+    registered simulant through `__getitem__` (requested in another order than `_map`'s).
+    `update` = the bound method to call (the unwrapped one when `im.update` is instrumented)."""
     import pandas as pd
     rec = {}
     rec["salt10"] = int(im._convert_to_ten_digit_int(pd.Series(t, index=[0])).iloc[0])
-    if names and len(df):
+    if names and len(df) and probe:
         rec["ten"] = [[int(x) for x in im._convert_to_ten_digit_int(df[c]).tolist()] for c in names]   # per column
         if len(names) == 1:
             ki = pd.Index(df[names[0]].array, name=names[0])
@@ -145,36 +245,63 @@ def observe_update(im, big, df, t, names, hash_probe=6, update=None):
             rec["probe"]["s1"] = [int(x) for x in im._hash(sub, salt=1).tolist()]              # collision salts
             rec["probe"]["s90001_big"] = [int(x) for x in big._hash(sub, salt=90001).tolist()]  # _spread wraps 10^10
     before = dump_map(im)
+    calls = [0]
+    orig_hash = im._hash
+    # With a shift that generates every residue (the sizes the generators use) a colliding key has tried every slot after
+    # `size` passes, so an update of a block that is not over-full never needs more. Beyond that the loop is spinning for
+    # good (DESIGN.md F11): stop it here instead of waiting for the wall-clock alarm (which is slow and load-dependent).
+    budget = len(im) + 8
+
+    def counting_hash(*a, **k):
+        calls[0] += 1
+        if calls[0] > budget + 1:
+            raise LoopBudgetExceeded(f"{calls[0] - 1} passes of the collision loop in a block of {len(im)}")
+        return orig_hash(*a, **k)
+
+    im._hash = counting_hash            # instance attribute; removed again below
     try:
         (update or im.update)(df, t)
         rec["outcome"] = "ok"
     except Exception as e:  # noqa: BLE001
         rec["outcome"] = outcome_of(e)
         rec["exc"] = e
+    finally:
+        del im._hash
+    rec["passes"] = max(0, calls[0] - 1)          # collision-loop iterations
     rec["map"], rec["keys"] = dump_map(im)
     rec["before"] = before[0]
+    if rec["map"] is not None:
+        sims = [s for s, _ in rec["map"]]
+        req = sims[::-1][1:] + sims[::-1][:1]      # reversed and rotated: neither sorted nor in `_map` order
+        try:
+            got = im[pd.Index(req, dtype="int64")]
+            rec["pos"] = sorted([int(s), _as_pos(p)] for s, p in zip(req, list(got)))
+        except Exception as e:  # noqa: BLE001
+            rec["pos"] = outcome_of(e)
+    else:
+        rec["pos"] = None
     return rec
 
 
 def run_history(hist, hash_probe=6):
     """Run the history on a real IndexMap; observations per batch (all JSON-serialisable)."""
     impl.load()
-    import pandas as pd
     from vivarium.framework.randomness.index_map import IndexMap
 
     types, tunit, size = hist["cols"], hist.get("tunit", "ns"), hist["size"]
-    names = col_names(types)
+    names = names_of(hist)
     im = IndexMap(list(names), size=size)
     big = IndexMap(list(names), size=BIG)
     out = []
     for b in hist["batches"]:
         t = mk_salt(b["t"], tunit)
-        df = mk_frame(types, tunit, b["sims"], b["keys"])
-        rec = observe_update(im, big, df, t, names, hash_probe)
+        df = mk_frame(types, tunit, b["sims"], b["keys"], names=names, dtypes=hist.get("dtypes"), frame=b.get("frame"),
+                      bad=b.get("bad"))
+        rec = observe_update(im, big, df, t, names, hash_probe, probe=not b.get("bad"))
         rec.pop("exc", None)
         if b.get("get") is not None:
             try:
-                rec["get"] = [int(x) for x in im[pd.Index(b["get"], dtype="int64")]]
+                rec["get"] = [_as_pos(x) for x in list(im[mk_request(b["get"], b.get("get_kind", "index"))])]
             except Exception as e:  # noqa: BLE001
                 rec["get"] = outcome_of(e)
         out.append(rec)
@@ -234,7 +361,11 @@ def enc_val(ty, v, ten):
 
 
 def enc_salt(t, salt10):
-    return f"i{int(t[1])}" if t[0] == "int" else f"c{int(t[1])}_{int(salt10)}"
+    if t[0] in ("int", "npint"):
+        return f"i{int(t[1])}"
+    if t[0] == "float":
+        return f"c{float_rank(float(t[1]))}_{int(salt10)}"
+    return f"c{int(t[1])}_{int(salt10)}"
 
 
 def enc_key(types, key, tens):
@@ -248,6 +379,12 @@ def history_lines(hist, obs, name="imap"):
     plan = [("new", None)]
     for bi, (b, rec) in enumerate(zip(hist["batches"], obs)):
         salt = enc_salt(b["t"], rec["salt10"])
+        if b.get("bad"):
+            # an unhashable key column: the real code must reject the batch and keep its map; the model simply does
+            # not see the batch (key types other than int / float / datetime are outside the model)
+            if b.get("get") is not None:
+                L.append(f"{name} get {','.join(str(int(s)) for s in b['get']) or '-'}"); plan.append(("get", bi))   # noqa: E702
+            continue
         if types and b["sims"]:
             tens = rec["ten"]
             rows = ";".join(f"{int(s)}," + enc_key(types, k, [tens[j][i] for j in range(len(types))])
